@@ -117,6 +117,24 @@ ADD3 = {
 }
 NOT_YET = "rule module not built yet in this round (see DESIGN.md section 4 for the planned static rules)"
 
+ADD4 = {
+ "C01": " (R5) the enum template spells #[repr(C)] itself; (R3) the C/C++ struct generators walk every field in order; C/C++ enum templates print every stored discriminant (shared C11.R1).",
+ "C02": " (R5) the callback trampoline calls the stored std::function, never a copy; (R3) struct methods are generated after the field phase.",
+ "C03": " (R6) every access of a DiplomatResult union arm is dominated by the matching edge of a test of the same object's is_ok (MIR, crate-wide); (R3) generated wrapper closures own the whole DiplomatCallback; alloc/free use the caller's layout (shared C16.R4).",
+ "C04": " (R2) lifetime-map entries are recorded under conditions on the lifetimes at hand only; (R3) MIR worklist-exhaustion and selector-table direction rules; (R6) use-lifetime sets consumed whole, Dart typed-list views keep their edges, def-site lifetimes never formatted in a user environment.",
+ "C05": " (R3) every test for the name Option reads the same path segment; (R4) where-clause lifetime predicates reach the bounds unconditionally.",
+ "C06": " (R1) a symbol is renamed with the item's own merged attributes; (R4) Attrs::add_attr records every attribute kind unconditionally.",
+ "C07": " (R2) struct field lists are walked completely and in order (no filter/skip/rev/sort between StructDef.fields and its consumer).",
+ "C08": " (R6) scalar count equals the arity of the layout tuple; (R8) size/align locals come from the accessor of the same name; (R9) Struct/OutStruct symmetry; (R3) prev_align is the alignment of the field just laid out.",
+ "C09": " (R5) every conversion arm of the JS dispatcher is bracket-balanced under each (context, ABI); (R7) const-qualifier table for &self / self / &mut self, field-phase window of the C++ struct generator, where-clause bounds in the LifetimeEnv (shared C05.R4).",
+ "C10": " (R5) the error payload handed to gen_result_ty does not depend on the success type; option reader/writer call positions (shared C08.R8).",
+ "C11": " (R1) no enumerator without its value, the loop position is never compared with the discriminant, JS discriminant keys are computed keys; Dart passes enums as Int32 (shared C07.R4).",
+ "C12": " (R6) the NUL terminator is stored on every path; (R7) DiplomatWrite::flush runs the installed callback on every path.",
+ "C13": " (R4) all type lowerers skip the methods of a disabled type, nothing but bookkeeping precedes a backend loop's disable test, the C formatter applies rename only under is_for_cpp.",
+ "C15": " (R1) panic arms narrowed by caller context (a helper's catch-all is selected by what its callers' arms let through); JS layout assertions rest on C08.R3, which is part of this check.",
+ "C17": " (R3) the keys a language prefix may override are exactly the keys SharedConfig::set understands.",
+}
+
 def main():
     props = [json.loads(l) for l in open(os.path.join(V, "properties.jsonl"))]
     checks = []
@@ -132,7 +150,7 @@ def main():
                 "evidence_file": "/verif/evidence/%s.json" % pid,
                 "replay_cmd_template": "./check %s quick  # replay file {path} lists the violated rule instances" % pid,
                 "engine": "dipfacts+rules",
-                "level_claimed": {"category": "other", "text": c["text"] + ADD.get(pid, ("", ""))[0] + ADD3.get(pid, ""), "design_ref": "DESIGN.md section 4 " + pid},
+                "level_claimed": {"category": "other", "text": c["text"] + ADD.get(pid, ("", ""))[0] + ADD3.get(pid, "") + ADD4.get(pid, ""), "design_ref": "DESIGN.md section 4 " + pid},
                 "level_note": c["note"],
                 "technique": "static analysis: " + c["technique"] + ADD.get(pid, ("", ""))[1],
             })
@@ -147,7 +165,7 @@ def main():
             {"name": "dipfacts", "path": "engines/dipfacts", "serves_properties": [c["property_id"] for c in checks],
              "kind_free_text": "rustc_private driver (RUSTC_WORKSPACE_WRAPPER under cargo +nightly check): typed/resolved HIR trees, MIR, ADT layouts as JSON facts"},
             {"name": "rules", "path": "engines/rules", "serves_properties": [c["property_id"] for c in checks],
-             "kind_free_text": "Python rule modules over the facts: decision tables, MIR path rules, provenance/flow, loop-carried-state analysis, template linter"},
+             "kind_free_text": "Python rule modules over the facts: decision tables, MIR path/dominance rules, provenance/flow, loop-carried-state analysis, caller-context narrowing, fragment-balance evaluation, template linter"},
             {"name": "witness", "path": "witness", "serves_properties": ["C03", "C12", "C16"],
              "kind_free_text": "compile-fail doctests with compiling twins (cargo +nightly test --doc), run by the thorough tier"},
         ],
